@@ -95,6 +95,15 @@ def split_certs(der):
 POST_MARK = bytes((i * 29 + 101) & 255 for i in range(48))          # recognisable plaintext of the post-handshake records below (C19 searches fd 1/2 for it)
 
 
+def wrong_finished(deviation, vd):
+    """verify_data that is not the right one: one bit off, or off in a way that cancels in a byte sum / XOR fold / order-insensitive / shortened comparison"""
+    if deviation == "finished_wrong": return bytes([vd[0] ^ 1]) + vd[1:]
+    if deviation == "finished_x80x2": return bytes([vd[0] ^ 0x80, vd[1] ^ 0x80]) + vd[2:]
+    if deviation == "finished_swap": return (vd[1:2] + vd[0:1] + vd[2:]) if vd[0] != vd[1] else bytes([vd[0] ^ 0x5a, vd[1] ^ 0x5a]) + vd[2:]
+    if deviation == "finished_tail": return vd[:8] + bytes(b ^ 0xff for b in vd[8:])
+    return vd
+
+
 def degenerate_sig(deviation, sig):
     """a possession proof that proves nothing: the signature field empty, a well-formed SEQUENCE of two zero INTEGERs, the genuine one cut to its first half"""
     if "sig_empty" in deviation: return b""
@@ -188,8 +197,7 @@ def tlcp_client(sock, deviation, client_chain=b"", client_d=0, other_d=12345, pr
         p.send_record(20, b"\x01")
     p.enc_out = deviation != "finished_plain"
     vd = prf(master, b"client finished", sm3(p.transcript), 12)
-    if deviation == "finished_wrong":
-        vd = bytes([vd[0] ^ 1]) + vd[1:]
+    vd = wrong_finished(deviation, vd)
     if deviation != "no_finished":
         p.send_hs(20, vd)
     p.enc_out = True
@@ -306,7 +314,7 @@ def tls13_client(sock, deviation, client_chain=b"", client_d=0, other_d=12345, m
         p.send_hs(15, u16(0x0403 if deviation == "cv_alg_other" else 0x0708) + u16(len(sig)) + sig)
     fk = xlabel(chs, b"finished", b"", 32)
     vd = K.hmac(T, "sm3", fk, sm3(p.transcript))
-    if deviation == "finished_wrong": vd = bytes([vd[0] ^ 1]) + vd[1:]
+    vd = wrong_finished(deviation, vd)
     if deviation == "finished_plain": p.send_hs(20, vd, enc=False)
     elif deviation != "no_finished": p.send_hs(20, vd)
     p.set_write(cap); p.set_read(sap)
@@ -394,7 +402,7 @@ def cbc_server(sock, proto, deviation, chain_der, sign_d, enc_d=0, other_d=54321
         p.send_record(20, b"\x01")
     p.enc_out = deviation != "finished_plain"
     vd = prf(master, b"server finished", sm3(p.transcript), 12)
-    if deviation == "finished_wrong": vd = bytes([vd[0] ^ 1]) + vd[1:]
+    vd = wrong_finished(deviation, vd)
     p.send_hs(20, vd)
     p.enc_out = True
     if post_hs(deviation): p.send_record(*post_hs(deviation))
@@ -447,7 +455,7 @@ def tls13_server(sock, deviation, chain_der, sign_d, other_d=54321, mut=None):
         p.send_hs(15, u16(0x0403 if deviation == "cv_alg_other" else 0x0708) + u16(len(sig)) + sig)
     fk = xlabel(shs, b"finished", b"", 32)
     vd = K.hmac(T, "sm3", fk, sm3(p.transcript))
-    if deviation == "finished_wrong": vd = bytes([vd[0] ^ 1]) + vd[1:]
+    vd = wrong_finished(deviation, vd)
     p.send_hs(20, vd)
     cap, sap = derive(master, b"c ap traffic", p.transcript), derive(master, b"s ap traffic", p.transcript)
     r = p.recv_record()
